@@ -512,6 +512,8 @@ impl Drop for BackgroundQueueJoinHandle {
     fn drop(&mut self) {
         if let Some(handle) = self.handle.take() {
             self.shutdown_signal.store(true, Ordering::Relaxed);
+            #[cfg(metrique_verif)]
+            metrique_writer_core::verif_hooks::point("bq.handle_drop.after_store");
             self.unparker.unpark();
             tracing::info!("awaiting background metrics queue shutdown");
             handle.join().unwrap();
@@ -537,12 +539,16 @@ impl<E> Inner<E> {
         }
         // Note that we're not enormously concerned about the ordering guarantees between the queue push and the unpark
         // signal. That's because the writer thread will at most wait for flush_interval before waking itself up.
+        #[cfg(metrique_verif)]
+        metrique_writer_core::verif_hooks::point("bq.push.before_unpark");
         self.unparker.unpark();
     }
 
     fn flush_async(&self) -> FlushWait {
         let (channel, receiver) = tokio::sync::oneshot::channel();
         self.flush_queue_sender.send(FlushSignal { channel }).ok();
+        #[cfg(metrique_verif)]
+        metrique_writer_core::verif_hooks::point("bq.flush_async.before_unpark");
         self.unparker.unpark();
         FlushWait::from_future(async move {
             let _ = receiver.await;
@@ -668,6 +674,8 @@ impl<S: EntryIoStream, E: Entry> Receiver<S, E> {
             let mut idle_duration = Duration::ZERO;
             loop {
                 let (status, entry_count) = self.drain_until_deadline(next_flush);
+                #[cfg(metrique_verif)]
+                metrique_writer_core::verif_hooks::point("bq.run.after_drain");
 
                 waker_tracker.handle_waiting_wakers(
                     || queue_capacity,
@@ -676,6 +684,8 @@ impl<S: EntryIoStream, E: Entry> Receiver<S, E> {
                     entry_count,
                 );
 
+                #[cfg(metrique_verif)]
+                metrique_writer_core::verif_hooks::point("bq.run.after_wakers");
                 if status == DrainResult::HitDeadline {
                     break; // Hit deadline, flush stream
                 }
@@ -687,7 +697,11 @@ impl<S: EntryIoStream, E: Entry> Receiver<S, E> {
                 // if the waker tracker can make progress observing an empty queue, let it
                 if !waker_tracker.will_progress_on_drained_queue() {
                     let park_start = Instant::now();
+                    #[cfg(metrique_verif)]
+                    metrique_writer_core::verif_hooks::point("bq.run.park_enter");
                     self.parker.park_deadline(next_flush);
+                    #[cfg(metrique_verif)]
+                    metrique_writer_core::verif_hooks::point("bq.run.park_exit");
                     if self.inner.recorder.is_some() {
                         idle_duration += park_start.elapsed();
                     }
@@ -732,6 +746,8 @@ impl<S: EntryIoStream, E: Entry> Receiver<S, E> {
         // entries remaining in the queue.
         let mut count = 0usize;
         while let Some(entry) = self.inner.queue.pop() {
+            #[cfg(metrique_verif)]
+            metrique_writer_core::verif_hooks::point("bq.drain.after_pop");
             self.consume(entry);
 
             count += 1;
@@ -852,6 +868,74 @@ pub fn describe_sink_metrics<V: GlobalRecorderVersion + ?Sized>() {
 enum DrainResult {
     Drained,     // no entries left in the queue
     HitDeadline, // some entries left, but we're now past the deadline
+}
+
+/// Verification-only driver (`--cfg metrique_verif`) that lets a harness step the real
+/// [`WakerTracker`] state machine without a queue or a thread. Not part of the public API.
+#[cfg(metrique_verif)]
+#[doc(hidden)]
+pub mod verif_waker {
+    use super::{DrainResult, FlushSignal, WakerTracker};
+
+    /// Outcome of a drain step, mirrors the private `DrainResult`
+    #[derive(Clone, Copy, Debug, PartialEq, Eq)]
+    pub enum Status {
+        /// the queue was observed empty
+        Drained,
+        /// entries were left in the queue when the deadline hit
+        HitDeadline,
+    }
+
+    /// Owns the real tracker and the sending side of its flush-signal channel
+    pub struct WakerDriver {
+        tracker: WakerTracker,
+        sender: std::sync::mpsc::Sender<FlushSignal>,
+    }
+
+    impl Default for WakerDriver {
+        fn default() -> Self {
+            Self::new()
+        }
+    }
+
+    impl WakerDriver {
+        /// fresh tracker with no requests
+        pub fn new() -> Self {
+            let (sender, receiver) = std::sync::mpsc::channel();
+            Self {
+                tracker: WakerTracker::new(receiver),
+                sender,
+            }
+        }
+
+        /// what `flush_async` does: send a signal; the returned receiver is closed on wake
+        pub fn request_flush(&self) -> tokio::sync::oneshot::Receiver<()> {
+            let (channel, receiver) = tokio::sync::oneshot::channel();
+            self.sender.send(FlushSignal { channel }).ok();
+            receiver
+        }
+
+        /// one call of the real `handle_waiting_wakers`
+        pub fn step(
+            &mut self,
+            status: Status,
+            entry_count: usize,
+            capacity: usize,
+            flush_stream: impl FnOnce(),
+        ) {
+            let status = match status {
+                Status::Drained => DrainResult::Drained,
+                Status::HitDeadline => DrainResult::HitDeadline,
+            };
+            self.tracker
+                .handle_waiting_wakers(|| capacity, flush_stream, status, entry_count)
+        }
+
+        /// the real `will_progress_on_drained_queue`
+        pub fn will_progress(&mut self) -> bool {
+            self.tracker.will_progress_on_drained_queue()
+        }
+    }
 }
 
 #[cfg(test)]
